@@ -12,7 +12,7 @@ pub struct Phase {
     pub seeded: bool,
 }
 
-pub const CLAIMED: [&str; 10] = ["C01", "C02", "C04", "C05", "C06", "C09", "C10", "C11", "C12", "C18"];
+pub const CLAIMED: [&str; 13] = ["C01", "C02", "C04", "C05", "C06", "C07", "C09", "C10", "C11", "C12", "C13", "C17", "C18"];
 
 const RT_BATCH: u64 = 64;
 
@@ -38,6 +38,15 @@ pub fn phases(prop: &str, tier: Tier) -> Vec<Phase> {
         ],
         "C11" => vec![Phase { name: if q { "crash-sampled" } else { "crash-full" }, units: if q { 160 } else { 4000 }, seeded: true }],
         "C12" => vec![Phase { name: "wfault", units: if q { 320 } else { 16_000 }, seeded: true }],
+        "C07" => vec![
+            Phase { name: "ladder", units: 14, seeded: false },
+            Phase { name: "corrupt", units: if q { 96 } else { 9_600 }, seeded: true },
+        ],
+        "C17" => vec![
+            Phase { name: "ladder", units: 14, seeded: false },
+            Phase { name: "corrupt", units: if q { 64 } else { 6_400 }, seeded: true },
+        ],
+        "C13" => vec![Phase { name: "rfault", units: if q { 160 } else { 8_000 }, seeded: true }],
         _ => vec![],
     }
 }
@@ -84,6 +93,9 @@ pub fn run_unit(prop: &str, phase: &str, unit: u64, seed: u64, _tier: Tier, ctx:
         "crash-sampled" => crate::fam_crash::unit(derive(seed, "C11/crash", unit), 20_000, ctx, ctl),
         "crash-full" => crate::fam_crash::unit(derive(seed, "C11/crash", unit), usize::MAX, ctx, ctl),
         "wfault" => crate::fam_wfault::unit(derive(seed, "C12/wfault", unit), ctx, ctl),
+        "corrupt" => crate::fam_corrupt::unit(derive(seed, "C07/corrupt", unit), ctx, ctl),
+        "ladder" => crate::fam_corrupt::ladder_unit(unit, ctx, ctl),
+        "rfault" => crate::fam_rfault::unit(derive(seed, "C13/rfault", unit), ctx, ctl),
         _ => {}
     }
 }
@@ -125,6 +137,18 @@ pub fn meta(prop: &str) -> PropMeta {
             level: "fault_enumeration",
             rule: "one unit = one seeded workload (write_shape / finalize-with-immediate-retry / drop; Direct or BufWriter stack); golden run, then for every operation k issued on each destination: one-shot error, persistent error, Ok(0), EINTR at k; disk-full at ~150 capacities per destination; every short-write chunk size from 1 byte upward with and without EINTR; 6 seeded mixed schedules. distinct = distinct (history, fault class, per-call result pattern) triples; runs whose fault never fired are not counted as distinct.",
             explanation: "Surfacing is judged with the API-call brackets: the call whose device-event range contains the failed operation must return Err (exact also below a BufWriter). A one-shot fault in a finalize must leave golden bytes after the immediate retry. Masked schedules must leave golden bytes.",
+            exhaustive: false,
+        },
+        "C07" | "C17" => PropMeta {
+            level: "fault_enumeration",
+            rule: "corrupt: one unit = one seeded base file from the real writer (any type, 1..4 records, 1..3 parts) with its .shx and a valid .dbf; enumerated per base file: every 32-bit field of .shp and .shx (header length/version/type, record number/length/type, part and point counts, every part offset, every patch kind, index length/type, every index offset/length) x ~25 boundary values (0, +-1, i32::MIN/MAX, 2^27..2^30 and neighbours, doubles/halves of the original), every truncation length of both files, extensions by 1/7/8/100 bytes and by a copy of the records; sampled per base file: 150 field pairs, 150 bit flips, 40 garbage bodies behind a valid file code. ladder: for every multi-vertex type and the index, declared counts 10^3..2^31-1 (incl. 2^27, 2^28, 2^29 whose byte sizes wrap 32 bits) with mutually consistent record/file lengths and no data behind. Every case drives ~45 reader calls (open, header, count, iterate generic/typed drained, size_hint, read_nth and seek at 0,1,n-1,n,usize::MAX each followed by iteration, read, read_as, complete Reader iterate/seek/read). distinct = distinct (type, field id + value class, outcome signature) triples.",
+            explanation: "Each reader call runs under catch_unwind (overflow checks and debug assertions on) and between begin/end of the counting allocator; iterators are drained through an item cap of (len(shp)+len(shx))/4+16. Workers run under an address-space limit with a watchdog: a worker that dies or stalls is pinpointed to the case and reported as abort/hang. C17 bound per call: peak live bytes and largest single request <= 64 x input bytes + 64 KiB.",
+            exhaustive: false,
+        },
+        "C13" => PropMeta {
+            level: "fault_enumeration",
+            rule: "one unit = one seeded valid file from the real writer (every type, 1..4 tagged shapes); every truncation length 0..=len of the .shp (read with and without index) and of the .shx; for each of 3 reader stacks (Direct, small BufReader, BufReader(8192)) x {with, without index}: every operation k of an undisturbed full traversal (open, iterate, read_nth every i) failed one-shot with a rotating error kind and with EINTR; every short-read chunk size x {no EINTR, EINTR every 2nd, every 5th call}; 8 seeded mixed schedules. distinct = distinct (file, fault/truncation, route) triples by hash.",
+            explanation: "Every reader call of the traversal is bracketed with its device events. Oracles: only genuine shapes at their positions; records wholly inside the retained bytes are returned; the cut record is Error::IoError; a hard source failure surfaces from the call in progress with that error; short reads / EINTR leave every result identical to the undisturbed traversal.",
             exhaustive: false,
         },
         _ => PropMeta { level: "exploration", rule: "", explanation: "", exhaustive: false },
